@@ -20,7 +20,7 @@ ASSUMPTIONS = ["triangle orientation is by (chromosome rank, position), as docum
                "tabix loader: a record whose FIRST anchor lies beyond its chromosome can never be fetched; 'counted "
                "nowhere' is accepted there, 'counted somewhere' is not; records with a negative first anchor are not "
                "written to tabix files (not representable in a well-formed index)"]
-MIN_NONTRIVIAL = {"quick": 250, "thorough": 2500}
+MIN_NONTRIVIAL = {"quick": 150, "thorough": 1500}
 REQUIRED_FEATURES = ["path:api", "path:sanitize_pixels", "path:cli-cload-pairs", "path:cli-load-bg2", "path:cli-load-coo",
                      "path:tabix", "fate:out-of-range:pos=length", "fate:out-of-range:pos=-1", "fate:unknown-chrom",
                      "tril:reflect", "tril:drop", "tril:none", "one-based", "zero-based", "records:on-bin-edge",
